@@ -1496,12 +1496,13 @@ func (m *repoManager) getNodeNote(uuid dvid.UUID) (string, error) {
 
 	r.RLock()
 	node, found := r.dag.nodes[v]
+	r.RUnlock()
 	if !found {
-		r.RUnlock()
 		return "", ErrInvalidVersion
 	}
+	node.RLock()
 	note := node.note
-	r.RUnlock()
+	node.RUnlock()
 	return note, nil
 }
 
